@@ -101,19 +101,34 @@ def run(ctx):
     if ex:
         mb = F.main_body(ex)
         conds = edge_conditions(mb)
-        # sites that consume the read batch in this function
-        uses = [(bi, t, "serve") for (bi, t) in calls_matching(mb, r"LeaderState::execute_pending_reads$")]
-        uses += [(bi, t, "queue") for (b, bi, t) in ins if b.id == mb.id]
-        ctx.floor("C11-b", len(uses), 2, "read-batch consumers in execute_and_process_raft_rpc (inline serve + queue)")
+        # sites that consume the read batch in this function - directly, or inside a LeaderState helper it hands the
+        # batch to (one level; the helper is treated as inlined: the gate is checked at the helper's call site, the
+        # apply bound and the queue key inside the helper)
+        # use = (site block in mb, what, batch locals in mb or None, body of the real site, its block, its terminator)
+        uses = [(bi, "serve", Slice(F, mb).operand(t["args"][1]).seen, mb, bi, t) for (bi, t) in calls_matching(mb, r"LeaderState::execute_pending_reads$")]
+        uses += [(bi, "queue", None, mb, bi, t) for (b, bi, t) in ins if b.id == mb.id]
+        for (hbi, ht) in mb.calls():
+            for tg in F.resolve_targets(ht):
+                if tg == epr.id or tg == ex.id or not self_type_of(F, tg).endswith("LeaderState") or tg not in F.bodies:
+                    continue
+                argl = set()
+                for a_ in ht["args"][1:]:
+                    argl |= Slice(F, mb).operand(a_).seen
+                for hb in F.group_bodies(F.bodies[tg]):
+                    for (xbi, xt) in calls_matching(hb, r"LeaderState::execute_pending_reads$"):
+                        if not Slice(F, hb, through_calls=True).operand(xt["args"][1]).has_field("LeaderState", "pending_reads"):
+                            uses.append((hbi, "serve", argl, hb, xbi, xt))
+                    for (ib, ibi, it) in ins:
+                        if ib.id == hb.id:
+                            uses.append((hbi, "queue", argl, hb, ibi, it))
+        ctx.floor("C11-b", len(uses), 2, "read-batch consumers in execute_and_process_raft_rpc (inline serve + queue), helpers included")
         gate_edges = [c for c in conds.values() if none_edge(F, c, "LeaderState", "noop_log_id")]
         ctx.floor("C11-b", len(gate_edges), 1, "`noop_log_id is None` test in execute_and_process_raft_rpc")
         takes = calls_matching(mb, r"Option::take$")
-        for (bi, t, what) in uses:
-            batch_locals = set()
-            if what == "serve":
-                batch_locals = Slice(F, mb).operand(t["args"][1]).seen
-            else:
+        for (bi, what, batch_locals, sb, sbi, t) in uses:
+            if batch_locals is None:
                 # the value extended into the queue entry: any argument of a VecDeque::extend / push after the entry call
+                batch_locals = set()
                 for (xb, xt) in calls_matching(mb, r"(::extend|::push_back|::push)$"):
                     if mb.dominates(bi, xb):
                         for a in xt["args"][1:]:
@@ -132,20 +147,20 @@ def run(ctx):
                       "while noop_log_id is None the read batch can still reach the %s site: read_index would fall back to a previous term's commit index "
                       "with no quorum check in this term" % what, loc(mb, bi), wit and bpath(mb, wit))
         # every taken batch on the gate edge is answered with an error (not dropped silently)
-        for (bi, t, what) in uses:
+        for (bi, what, _bl, sb, sbi, t) in uses:
             if what != "serve":
                 continue
             ri = lambda s: s.has_call(r"LeaderState::calculate_read_index$")
             la = lambda s: s.has_call(r"StateMachine::last_applied$") and not s.has_call(r"LeaderState::calculate_read_index$")
-            ok, wit, _ = guarded_by(mb, bi, lambda c: cmp_rel(F, c, la, ri) in (">=", ">", "=="), conds)
+            ok, wit, _ = guarded_by(sb, sbi, lambda c: cmp_rel(F, c, la, ri) in (">=", ">", "=="), edge_conditions(sb))
             ctx.check("C11-b", "%s#inline-serve#applied>=read_index" % fkey(ex), ok, "inline serve only when last_applied >= read_index",
                       "reads are served inline without last_applied >= read_index: the state machine may not contain a write acknowledged before the read",
-                      loc(mb, bi), wit and bpath(mb, wit))
-        for (bi, t, what) in uses:
+                      loc(sb, sbi), wit and bpath(sb, wit))
+        for (bi, what, _bl, sb, sbi, t) in uses:
             if what == "queue":
-                s = Slice(F, mb).operand(t["args"][1])
+                s = Slice(F, sb).operand(t["args"][1])
                 ctx.check("C11-b", "%s#queue-key=read_index" % fkey(ex), s.has_call(r"LeaderState::calculate_read_index$"),
-                          "queued reads are keyed by calculate_read_index()", "pending_reads key does not derive from calculate_read_index()", loc(mb, bi))
+                          "queued reads are keyed by calculate_read_index()", "pending_reads key does not derive from calculate_read_index()", loc(sb, sbi))
     cri = ctx.anchor(F.method, "LeaderState", "calculate_read_index")
     if cri:
         rets = [Slice(F, cri).operand({"p": {"l": 0}})]
